@@ -95,7 +95,11 @@ def generate(streams: core.Streams, tier: str) -> dict:
             c["correlation"]["aliases"] = {"al": {docs[0]["name"]: "User"}}
             c["correlation"]["group-by"] = ["al"]
         if c["correlation"]["type"] in ("temporal", "temporal_ordered") and gen.chance(w, 0.4) and k == 2:
-            c["correlation"]["condition"] = f"{docs[0]['name']} and not {docs[1]['name']}" if gen.chance(w, 0.5) else f"{docs[0]['name']} or {docs[1]['name']}"
+            a_, b_ = docs[0]["name"], docs[1]["name"]
+            # round 9: also negated and parenthesised groups (precedence must survive the writer)
+            c["correlation"]["condition"] = gen.pick(w, [
+                f"{a_} and not {b_}", f"{a_} or {b_}", f"not ({a_} or {b_})", f"{a_} and not ({b_} or {a_})",
+                f"({a_} or {b_}) and not ({a_} and {b_})", f"not {a_} and {b_}"])
             c["correlation"]["rules"] = [docs[0]["name"], docs[1]["name"]]
         if gen.chance(w, 0.25):
             c["correlation"]["type"] = gen.pick(w, ["value_percentile", "value_median"])
@@ -152,6 +156,15 @@ def generate(streams: core.Streams, tier: str) -> dict:
         nm = next(k for k in t["detection"] if k != "condition")
         if isinstance(t["detection"][nm], dict):
             t["detection"][nm]["EventID|re"] = gen.pick(w, [4624, 1.5, [1, "a.*"]])  # a YAML number as regular expression
+    if kind == "rule" and gen.chance(w, 0.05):
+        # round 9: two items of one detection carry the same modifier chain and a field mapping gives them
+        # the same name - the writer must merge them faithfully or refuse ('neq' items cannot be merged)
+        fa, fb = w.sample(gen.FIELDS, 2)
+        mods = gen.pick(w, ["neq|all", "all", "neq", "contains|all", "neq|all"])
+        t["detection"] = {"selection": {f"{fa}|{mods}": gen.pick(w, [[1, 2], ["a", "b"]]),
+                                        f"{fb}|{mods}": gen.pick(w, [[3, 4], ["c", "d"]])},
+                          "condition": "selection"}
+        transformation = {"type": "field_name_mapping", "mapping": {fa: "merged", fb: "merged"}}
     return {"kind": kind, "documents": docs, "target": target, "transformation": transformation, "vars": pvars,
             "with_source": gen.chance(s, 0.15)}
 
